@@ -21,6 +21,7 @@ import (
 	"os"
 	"path/filepath"
 	"sync"
+	"sync/atomic"
 	"time"
 
 	"lunar/toolkit-core/verifhook"
@@ -48,6 +49,8 @@ type Event struct {
 	G    string `json:"g,omitempty"`
 	Cost int64  `json:"cost,omitempty"`
 	Reqs []Req  `json:"reqs,omitempty"`
+	N    int    `json:"n,omitempty"`  // storm: total number of requests
+	Par  int    `json:"par,omitempty"` // storm: goroutines
 }
 
 type Script struct {
@@ -168,6 +171,45 @@ func main() {
 					}
 					close(start)
 					wg.Wait()
+				case "storm":
+					// e.N identical requests issued by e.Par goroutines at one mock instant; one compact event
+					var wg sync.WaitGroup
+					var admitted, failed atomic.Int64
+					start := make(chan struct{})
+					par := e.Par
+					if par < 1 {
+						par = 1
+					}
+					r := Req{e.Q, e.G, e.Cost}
+					for gi := 0; gi < par; gi++ {
+						cnt := e.N / par
+						if gi < e.N%par {
+							cnt++
+						}
+						wg.Add(1)
+						go func(gi, cnt int) {
+							defer wg.Done()
+							<-start
+							for k := 0; k < cnt; k++ {
+								res := eng.Request(fmt.Sprintf("st%d-%d-%d", uid, gi, k), "GET", "api.test/"+e.Q, sc.headers(r))
+								switch outcome(res) {
+								case "admit":
+									admitted.Add(1)
+								case "refuse":
+								default:
+									failed.Add(1)
+								}
+							}
+						}(gi, cnt)
+					}
+					uid++
+					close(start)
+					wg.Wait()
+					ev := vh.Ev{"ev": "storm", "q": e.Q, "g": e.G, "cost": e.Cost, "n": e.N, "admitted": admitted.Load()}
+					if failed.Load() > 0 {
+						ev["errors"] = failed.Load()
+					}
+					tr.Add(ev)
 				default:
 					vh.Die("unknown event %q", e.Ev)
 				}
